@@ -59,6 +59,17 @@ def lattice():
             for kt in ("int32", "float32", "float64", "bool"):
                 tasks.append({"what": "astype", "kind": kt, "ka": ka, "ca": ca, "track": track, "arg": arg})
                 models.append((0, KINDS[kt], track, arg, []))
+    # the ** operator with a 0-d tensor exponent (values that have shortcut paths and one that has not)
+    for ka, ca, cb, pval in itertools.product(["float32", "float64", "int64"], (True, False), (True, False), (1, 2, 3)):
+        ca_eff = ca if KINDS[ka] == "KFloat" else True
+        tasks.append({"what": "pow_op", "kind": None, "ka": ka, "ca": ca, "cb": cb, "pval": pval, "track": True, "arg": None})
+        models.append((1, "KFloat", True, None, [ca_eff, cb]))
+    # in-place targets: out=, augmented assignment, item assignment
+    for what in ("out_target", "iadd_target", "setitem_target"):
+        for cz, ka, ca, arg in itertools.product((True, False), ["float64", "float32", "int64"], (True, False), ARGS if what == "out_target" else [None]):
+            ca_eff = ca if KINDS[ka] == "KFloat" else True
+            tasks.append({"what": what, "kind": None, "cz": cz, "ka": ka, "ca": ca, "track": True, "arg": arg})
+            models.append((3, "KFloat", True, arg, [cz, ca_eff]))
     return tasks, models
 
 
